@@ -32,11 +32,16 @@ type C11Case struct {
 func keyCfg(mode string) h.KeyCfg { return keyCfgW(mode, "wide") }
 
 // keyCfgW: the SP decryption key E1 with its certificate of window w, configured as mode says.
-func keyCfgW(mode, w string) h.KeyCfg {
+func keyCfgW(mode, w string) h.KeyCfg { return keyCfgK(mode, "E1", w) }
+
+func keyCfgK(mode, key, w string) h.KeyCfg {
 	if w == "" {
 		w = "wide"
 	}
-	e1, e2 := h.CertRef{Key: "E1", Window: w}, h.CertRef{Key: "E2", Window: "wide"}
+	if key == "" {
+		key = "E1"
+	}
+	e1, e2 := h.CertRef{Key: key, Window: w}, h.CertRef{Key: "E2", Window: "wide"}
 	switch mode {
 	case "tls", "custom":
 		return h.KeyCfg{Mode: mode, Field: e1}
@@ -73,6 +78,10 @@ func genC11(t *rapid.T) C11Case {
 	}
 	c := C11Case{KeyMode: mode, Plain: genPlain(t)}
 	to := h.CertRef{Key: "E1", Window: rapid.SampledFrom(h.SPWindows).Draw(t, "spCert")}
+	if rapid.IntRange(0, 4).Draw(t, "oddKeySize") == 0 {
+		// a modulus whose bit length is not a multiple of 8
+		to = h.CertRef{Key: rapid.SampledFrom([]string{"E3", "E4"}).Draw(t, "oddKey"), Window: "wide"}
+	}
 	c.Enc = *h.GenEncSpec(to).Draw(t, "enc")
 	c.Twin = rapid.IntRange(0, 2).Draw(t, "twin") == 0
 	c.Placement = rapid.SampledFrom([]string{"response", "assertions", "both"}).Draw(t, "placement")
@@ -95,7 +104,7 @@ func (c *C11Case) build() error {
 	c.EAXML = string(h.Serialize(ea, h.Layout{}))
 	if c.Twin {
 		sp := h.BaseSP()
-		sp.Enc = keyCfgW(c.KeyMode, c.Enc.To.Window)
+		sp.Enc = keyCfgK(c.KeyMode, c.Enc.To.Key, c.Enc.To.Window)
 		g := gridGenuine(sp, 2, c.Placement)
 		_, raw, _, err := g.Render()
 		if err != nil {
@@ -120,7 +129,7 @@ func checkC11(c C11Case) h.Outcome {
 	fixtureCombo := (c.Enc.DataAlg == types.MethodAES128CBC || c.Enc.DataAlg == types.MethodAES256CBC) && c.Enc.Transport == types.MethodRSAOAEP && c.Enc.Digest == "-" && !c.Enc.Detached && c.KeyMode == "tls"
 	o.NonTrivial = !fixtureCombo
 	o.Classes = []string{"alg:" + shortAlg(c.Enc.DataAlg), "transport:" + shortAlg(c.Enc.Transport), "digest:" + shortAlg(c.Enc.Digest), fmt.Sprintf("detached:%v", c.Enc.Detached),
-		fmt.Sprintf("recipient:%v", c.Enc.Recipient != nil), "key:" + c.KeyMode, fmt.Sprintf("len%%16:%d", len(c.Plain)%16), fmt.Sprintf("twin:%v", c.Twin), fmt.Sprintf("twoEncrypted:%v", c.Enc2 != nil), fmt.Sprintf("inheritNS:%v", c.InheritNS)}
+		fmt.Sprintf("recipient:%v", c.Enc.Recipient != nil), "key:" + c.KeyMode, fmt.Sprintf("len%%16:%d", len(c.Plain)%16), fmt.Sprintf("twin:%v", c.Twin), fmt.Sprintf("twoEncrypted:%v", c.Enc2 != nil), fmt.Sprintf("inheritNS:%v", c.InheritNS), "spkey:" + c.Enc.To.Key}
 	if n := len(c.Plain); n > 0 && c.Plain[n-1] == 0 {
 		o.Classes = append(o.Classes, "plain-ends-in-zero")
 	}
@@ -137,6 +146,9 @@ func checkC11(c C11Case) h.Outcome {
 		return o
 	}
 	k := h.K("E1")
+	if c.Enc.To.Key != "" {
+		k = h.K(c.Enc.To.Key)
+	}
 	w := c.Enc.To.Window
 	if w == "" {
 		w = "wide"
@@ -186,7 +198,7 @@ func checkC11(c C11Case) h.Outcome {
 	// (b) twin differential through full validation, with the SP key configured in every way
 	if c.Twin {
 		sp := h.BaseSP()
-		sp.Enc = keyCfgW(c.KeyMode, c.Enc.To.Window)
+		sp.Enc = keyCfgK(c.KeyMode, c.Enc.To.Key, c.Enc.To.Window)
 		r1, err1 := sp.Build().ValidateEncodedResponse(c.TwinRaw)
 		r2, err2 := sp.Build().ValidateEncodedResponse(c.TwinEnc)
 		if err1 != nil {
@@ -262,7 +274,7 @@ func TestC11_Grid(t *testing.T) {
 							if h.IsGCM(alg) {
 								ivn = 12
 							}
-							e := h.EncSpec{DataAlg: alg, Transport: tr, Digest: dg, Detached: det, To: h.CertRef{Key: "E1", Window: "wide"}, Key: bytes.Repeat([]byte{byte(i)}, h.KeyLen(alg)), IV: bytes.Repeat([]byte{byte(i * 3)}, ivn), PadFill: byte(i)}
+							e := h.EncSpec{DataAlg: alg, Transport: tr, Digest: dg, Detached: det, To: h.CertRef{Key: []string{"E1", "E1", "E3", "E1", "E4"}[i%5], Window: "wide"}, Key: bytes.Repeat([]byte{byte(i)}, h.KeyLen(alg)), IV: bytes.Repeat([]byte{byte(i * 3)}, ivn), PadFill: byte(i)}
 							if rec {
 								r := e.To
 								e.Recipient = &r
